@@ -319,17 +319,17 @@ def run(tier, seed, budget):
     q = tier == 'quick'
     rep = Report('C11', tier, seed, 'exploration')
     rep.rule = RULE
-    rep.required = {'cases': 300, 'returned_entries': 2000, 'mutation:hdr-bitflip': 20, 'mutation:index-damage': 20, 'mutation:truncate': 15,
+    rep.required = {'cases': 250, 'returned_entries': 2000, 'mutation:hdr-bitflip': 20, 'mutation:index-damage': 20, 'mutation:truncate': 15,
                     'mutation:stray': 15, 'mutation:marker-damage': 15, 'cases:asan': 50}
     rep.assumptions = ['memory errors are observed through debug assertions / overflow checks (debug build) and AddressSanitizer (second pass); Miri is not part of this check',
                        'hang = CPU-time rlimit of the worker (40 s; undamaged directories need < 1 s)']
     root = os.path.join(common.scratch_root(), 'c11bases')
     os.makedirs(root, exist_ok=True)
     dbg = common.build('wsrv', 'debug')
-    passes = [('debug', dbg, {}, 8 << 30, 500 if q else 12000)]
+    passes = [('debug', dbg, {}, 8 << 30, 380 if q else 12000)]
     try:
         asan = common.build('wsrv', 'debug', flavor='asan')
-        passes.append(('asan', asan, {'ASAN_OPTIONS': 'detect_leaks=0:abort_on_error=0:halt_on_error=1:allocator_may_return_null=1:max_allocation_size_mb=4096'}, None, 120 if q else 4000))
+        passes.append(('asan', asan, {'ASAN_OPTIONS': 'detect_leaks=0:abort_on_error=0:halt_on_error=1:allocator_may_return_null=1:max_allocation_size_mb=4096'}, None, 90 if q else 4000))
     except common.BuildError as e:
         rep.add_inconclusive('ASan build failed: %s' % e)
     if not q:
